@@ -222,6 +222,8 @@ def ev_kind(sp):
         return "field_inst"
     if s in ("builtin", "bareBuiltin", "dictBare", "pep585", "dict585"):
         return "plain"
+    if s in ("pipe", "union") and same_type_obj(sp["x"], sp["y"]):
+        return ev_kind(sp["x"])          # `Union[bool, bool]` / `bool | bool` IS `bool`
     if s == "pipe":
         kx, ky = ev_kind(sp["x"]), ev_kind(sp["y"])
         return "typing" if "typing" in (kx, ky) else "plain"
